@@ -25,7 +25,10 @@ RULE = ('cases: valid scalars by class (1, 2, 3, n-1, n-2, 2^k, 2^k-1, sparse, s
         'points off the curve (random y, y^1, swapped, zero), off-curve tuples, hybrid 06/07 encodings; sequences in ONE process of '
         'related keys (a point and its negation = both parities of one x, the same secret / point through different formats and '
         'compression flags, private then public) under four construct/observe schedules, every object re-observed at the end '
-        '(exposes state kept between key objects). non-trivial = distinct '
+        '(exposes state kept between key objects); every hexadecimal text import (private hex, hex+01, HDKey(hex), public compressed / '
+        'uncompressed hex, Address(data/hashed_data=hex)) in lower, UPPER and two mixed letter cases; address cells and encoding '
+        'functions fed ready-made 20/32-byte hashes incl. hashes that begin like a script or witness-program header (00|51..60, '
+        'then len-2 / 12 / 1e / 26 / 14 / 20), leading-zero, all-zero, all-ff. non-trivial = distinct '
         '(case kind, scalar/point class, import format, compressed, network) and (network, address cell, route) tuples')
 TRUSTED_BASE = ['vf/refs/secp256k1.py (self-checked on G, 2G, (n-1)G, nG, hash160 vector)',
                 'vf/refs/chain.py + vf/refs/codec.py (Base58Check, Bech32/Bech32m self-checked on BIP173/350 vectors)',
@@ -53,7 +56,24 @@ K_OFFCURVE = 'C04/key/public-point-not-validated'
 K_B58_32 = 'C04/address/base58-of-32-byte-hash-returned'
 K_WIF_01 = 'C04/wif-uncompressed/trailing-01-read-as-compression-flag'
 
-PRIV_FORMATS = ('int', 'hex', 'bytes', 'wif', 'wif-uncompressed', 'hex01', 'hdkey', 'hdkey-key')
+PRIV_FORMATS = ('int', 'hex', 'bytes', 'wif', 'wif-uncompressed', 'hex01', 'hdkey', 'hdkey-key', 'hdkey-hexstr')
+TEXT_PRIV = ('hex', 'hex01', 'hdkey-hexstr')                    # formats that are hexadecimal text: letter case is an input class
+TEXT_PUB = ('hex', 'hex-uncompressed', 'hdkey-hex')
+TEXTCASES = ('lower', 'upper', 'mixed-a', 'mixed-b')
+
+
+def _tc(s, mode):
+    """hex text in the requested letter case; mixed-a upper-cases even positions, mixed-b odd positions (incl. the last digit)"""
+    if mode == 'upper':
+        return s.upper()
+    if mode in ('mixed-a', 'mixed-b'):
+        o = 0 if mode == 'mixed-a' else 1
+        return ''.join(c.upper() if i % 2 == o else c for i, c in enumerate(s))
+    return s
+
+
+def gen_textcase(rnd):
+    return rnd.choice(['lower', 'lower', 'upper', 'upper', 'mixed-a', 'mixed-b', 'mixed-b'])
 PUB_FORMATS = ('hex', 'bytes', 'hex-uncompressed', 'bytes-uncompressed', 'tuple', 'hdkey-hex', 'hdkey-key')
 WITNESS_TYPES = ('legacy', 'p2sh-segwit', 'segwit')
 
@@ -138,13 +158,13 @@ def gen_scalar(rnd, i=None):
     return rnd.randrange(1, N)
 
 
-def _mk_private_arg(fmt, d, net, raw=False):
+def _mk_private_arg(fmt, d, net, raw=False, tc='lower'):
     """import argument + kwargs for a private scalar in the given format. raw=True: no range assumptions (negative cases)."""
     b = d.to_bytes(32, 'big')
     if fmt == 'int':
         return d, {}
-    if fmt == 'hex':
-        return b.hex(), {}
+    if fmt in ('hex', 'hdkey-hexstr'):
+        return _tc(b.hex(), tc), {}
     if fmt == 'bytes':
         return b, {}
     if fmt == 'wif':
@@ -152,14 +172,14 @@ def _mk_private_arg(fmt, d, net, raw=False):
     if fmt == 'wif-uncompressed':
         return rchain.wif_encode(net, b, False), {}
     if fmt == 'hex01':
-        return b.hex() + '01', {'is_private': True}
+        return _tc(b.hex(), tc) + '01', {'is_private': True}
     return b, {}
 
 
-def _construct_private(fmt, d, net, compressed):
+def _construct_private(fmt, d, net, compressed, tc='lower'):
     from bitcoinlib.keys import Key, HDKey
-    arg, kw = _mk_private_arg(fmt, d, net)
-    if fmt == 'hdkey':
+    arg, kw = _mk_private_arg(fmt, d, net, tc=tc)
+    if fmt in ('hdkey', 'hdkey-hexstr'):
         return HDKey(arg, network=net, compressed=compressed, witness_type='legacy')
     if fmt == 'hdkey-key':
         return HDKey(key=arg, chain=b'\x05' * 32, network=net, compressed=compressed, witness_type='legacy')
@@ -176,20 +196,20 @@ def _fmt_compressed(fmt, compressed):
     return compressed
 
 
-def _construct_public(fmt, pubc, pubu, pt, net):
+def _construct_public(fmt, pubc, pubu, pt, net, tc='lower'):
     from bitcoinlib.keys import Key, HDKey
     if fmt == 'hex':
-        return Key(pubc.hex(), network=net), True
+        return Key(_tc(pubc.hex(), tc), network=net), True
     if fmt == 'bytes':
         return Key(pubc, network=net), True
     if fmt == 'hex-uncompressed':
-        return Key(pubu.hex(), network=net), False
+        return Key(_tc(pubu.hex(), tc), network=net), False
     if fmt == 'bytes-uncompressed':
         return Key(pubu, network=net), False
     if fmt == 'tuple':
         return Key(pt, network=net), True
     if fmt == 'hdkey-hex':
-        return HDKey(pubc.hex(), network=net, witness_type='legacy'), True
+        return HDKey(_tc(pubc.hex(), tc), network=net, witness_type='legacy'), True
     return HDKey(key=pubc, chain=b'\x06' * 32, is_private=False, network=net, witness_type='legacy'), True
 
 
@@ -210,6 +230,8 @@ def _check_keyobj(col, k, d, pt, compressed, case, what):
             col.violation(None, '%s: %s raised %r' % (what, name, e), case, repr(e)[:300], exp)
             ok = False
             return
+        if isinstance(got, str) and isinstance(exp, str) and case.get('textcase', 'lower') != 'lower':
+            got = got.lower()       # the letter case of returned hex text is representation, not value
         if got != exp:
             key = None
             if (case.get('fmt') == 'wif-uncompressed' and d is not None and d & 0xff == 1 and getattr(k, 'secret', None) == d >> 8
@@ -301,8 +323,8 @@ def _check_addresses(col, rnd, mk_key, pubbytes, compressed, net, case, hd=False
     for (st, enc), exp in cells.items():
         if enc == 'bech32' and not compressed:
             continue
-        for route, kwargs in (('Address(data)', {'data': rnd.choice([pubbytes, pubbytes.hex()])}),
-                              ('Address(hashed_data)', {'hashed_data': rnd.choice([h, h.hex()])})):
+        for route, kwargs in (('Address(data)', {'data': rnd.choice([pubbytes, _tc(pubbytes.hex(), case.get('textcase', 'lower'))])}),
+                              ('Address(hashed_data)', {'hashed_data': rnd.choice([h, _tc(h.hex(), case.get('textcase', 'lower'))])})):
             for e2 in (enc, None):
                 col.probe('address.obj')
                 col.case('address/%s/%s/%s' % (net, st, enc), nontrivial=idbase + (st, e2, route), sample=None)
@@ -337,7 +359,7 @@ def _check_script_addresses(col, rnd, pubbytes, net, case):
     cells = _cells_for_script(net, script)
     hashes = {('p2sh', 'base58'): ec.hash160(script), ('p2wsh', 'bech32'): ec.sha256(script), ('p2sh_p2wsh', 'base58'): ec.sha256(script)}
     for (st, enc), exp in cells.items():
-        for route, kwargs in (('Address(data)', {'data': rnd.choice([script, script.hex()])}),
+        for route, kwargs in (('Address(data)', {'data': rnd.choice([script, _tc(script.hex(), case.get('textcase', 'lower'))])}),
                               ('Address(hashed_data)', {'hashed_data': hashes[(st, enc)]})):
             for e2 in (enc, None):
                 col.probe('address.script')
@@ -386,17 +408,20 @@ def run_private(case, col, rnd):
     compressed = _fmt_compressed(fmt, compressed)
     pt = ec.mul_g(d)
     cls = _scalar_class(d)
-    col.case('private/%s/%s' % (cls, fmt), nontrivial=('private', cls, fmt, compressed, net), sample=case)
+    tc = case.get('textcase', 'lower') if fmt in TEXT_PRIV else 'lower'
+    col.case('private/%s/%s%s' % (cls, fmt, '' if fmt not in TEXT_PRIV else '/' + tc), nontrivial=('private', cls, fmt, compressed, net, tc), sample=case)
     col.probe('key.private')
+    if tc != 'lower':
+        col.probe('key.text_not_lowercase')
     try:
-        k = _construct_private(fmt, d, net, compressed)
+        k = _construct_private(fmt, d, net, compressed, tc)
     except Exception as e:
         col.violation(None, 'valid private key (%s, %s) refused: %r' % (cls, fmt, e), case, repr(e)[:300], ec.encode_pub(pt, compressed).hex())
         return
     if not _check_keyobj(col, k, d, pt, compressed, case, 'private import %s' % fmt):
         return
     pubbytes = ec.encode_pub(pt, compressed)
-    _check_addresses(col, rnd, lambda: _construct_private(fmt, d, net, compressed), pubbytes, compressed, net, case, hd=fmt.startswith('hdkey'))
+    _check_addresses(col, rnd, lambda: _construct_private(fmt, d, net, compressed, tc), pubbytes, compressed, net, case, hd=fmt.startswith('hdkey'))
     if compressed:
         _check_script_addresses(col, rnd, pubbytes, net, case)
     # public() keeps the same point and address
@@ -416,19 +441,98 @@ def run_public(case, col, rnd):
         return
     pubc, pubu = ec.encode_pub(pt, True), ec.encode_pub(pt, False)
     parity = 'odd' if pt[1] & 1 else 'even'
-    col.case('public/%s/%s' % (fmt, parity), nontrivial=('public', case.get('src'), fmt, parity, net), sample=case)
+    tc = case.get('textcase', 'lower') if fmt in TEXT_PUB else 'lower'
+    last = 'letter' if (pt[1] & 15) > 9 else 'digit'       # letter case only matters where the text has letters
+    col.case('public/%s/%s%s' % (fmt, parity, '' if fmt not in TEXT_PUB else '/' + tc),
+             nontrivial=('public', case.get('src'), fmt, parity, net, tc, last if fmt in TEXT_PUB else None), sample=case)
     col.probe('key.public')
+    if tc != 'lower':
+        col.probe('key.text_not_lowercase')
     try:
-        k, compressed = _construct_public(fmt, pubc, pubu, pt, net)
+        k, compressed = _construct_public(fmt, pubc, pubu, pt, net, tc)
     except Exception as e:
         col.violation(None, 'valid public key (%s) refused: %r' % (fmt, e), case, repr(e)[:300], pubc.hex())
         return
     if not _check_keyobj(col, k, None, pt, compressed, case, 'public import %s' % fmt):
         return
     pubbytes = pubc if compressed else pubu
-    _check_addresses(col, rnd, lambda: _construct_public(fmt, pubc, pubu, pt, net)[0], pubbytes, compressed, net, case, hd=fmt.startswith('hdkey'))
+    _check_addresses(col, rnd, lambda: _construct_public(fmt, pubc, pubu, pt, net, tc)[0], pubbytes, compressed, net, case, hd=fmt.startswith('hdkey'))
     if compressed:
         _check_script_addresses(col, rnd, pubbytes, net, case)
+
+
+# ------------------------------------------------------------------ address cells that take a hash / program
+def gen_hash(rnd):
+    """-> (bytes, class). 20- and 32-byte hashes incl. ones whose first bytes look like a script / witness-program header."""
+    n = rnd.choice([20, 32])
+    r = rnd.random()
+    if r < 0.5:
+        first = rnd.choice([0x00, 0x51, 0x52, 0x53, 0x5f, 0x60, rnd.randint(0x51, 0x60)])
+        second = rnd.choice([n - 2, n - 2, 0x12, 0x1e, 0x26, 0x14, 0x20, n])
+        return bytes([first, second]) + rnd.randbytes(n - 2), 'header-like-%02x' % (0 if first == 0 else 0x51)
+    if r < 0.6:
+        z = rnd.randint(1, 6)
+        return bytes(z) + rnd.randbytes(n - z), 'leading-zeros'
+    if r < 0.65:
+        return bytes(n), 'all-zero'
+    if r < 0.7:
+        return b'\xff' * n, 'all-ff'
+    return rnd.randbytes(n), 'random'
+
+
+def run_hash(case, col, rnd):
+    """Every address cell that is fed a ready-made hash: Address(hashed_data=..) and the encoding functions themselves."""
+    from bitcoinlib.keys import Address
+    from bitcoinlib import encoding as E
+    h = bytes.fromhex(case['h'])
+    net, cls = case['network'], case.get('cls', 'hash')
+    tc = case.get('textcase', 'lower')
+    nw = rchain.NETWORKS[net]
+    col.case('hash/%d/%s' % (len(h), cls), nontrivial=('hash', len(h), cls, net, tc), sample=case)
+    wit0 = rchain.address_segwit(net, 0, h)
+    if len(h) == 20:
+        cells = [('p2pkh', 'base58', rchain.address_base58(net, 'p2pkh', h)), ('p2sh', 'base58', rchain.address_base58(net, 'p2sh', h)),
+                 ('p2wpkh', 'bech32', wit0),
+                 ('p2sh_p2wpkh', 'base58', rchain.address_base58(net, 'p2sh', ec.hash160(rchain.script_witness(0, h))))]
+    else:
+        cells = [('p2wsh', 'bech32', wit0), ('p2tr', 'bech32', rchain.address_segwit(net, 1, h)),
+                 ('p2sh_p2wsh', 'base58', rchain.address_base58(net, 'p2sh', ec.hash160(rchain.script_witness(0, h))))]
+    for st, enc, exp in cells:
+        for e2 in (enc, None):
+            for arg in (h, _tc(h.hex(), tc)):
+                col.probe('address.hash')
+                c = dict(case, cell=[st, e2], route='Address(hashed_data=%s)' % type(arg).__name__)
+                try:
+                    got = Address(hashed_data=arg, script_type=st, encoding=e2, network=net).address
+                except Exception as e:
+                    col.violation(None, 'Address(hashed_data, %s, %s) on %s raised %r' % (st, e2, net, e), c, repr(e)[:300], exp)
+                    continue
+                if got != exp:
+                    _addr_violation(col, net, (), 'Address(hashed_data, script_type=%s, encoding=%s) on %s is not the standard address of this hash'
+                                    % (st, e2, net), c, got, exp)
+    direct = [('pubkeyhash_to_addr_bech32(witver=0)', lambda a: E.pubkeyhash_to_addr_bech32(a, prefix=nw['hrp'], witver=0), wit0),
+              ('pubkeyhash_to_addr(bech32, witver=0)', lambda a: E.pubkeyhash_to_addr(a, prefix=nw['hrp'], encoding='bech32', witver=0), wit0)]
+    if len(h) == 32:
+        direct.append(('pubkeyhash_to_addr_bech32(witver=1)', lambda a: E.pubkeyhash_to_addr_bech32(a, prefix=nw['hrp'], witver=1),
+                       rchain.address_segwit(net, 1, h)))
+    else:
+        for kind in ('p2pkh', 'p2sh'):
+            ver = bytes.fromhex(nw[kind])
+            direct.append(('pubkeyhash_to_addr_base58(%s)' % kind, lambda a, ver=ver: E.pubkeyhash_to_addr_base58(a, prefix=ver),
+                           rchain.address_base58(net, kind, h)))
+            direct.append(('pubkeyhash_to_addr(base58, %s)' % kind, lambda a, ver=ver: E.pubkeyhash_to_addr(a, prefix=ver, encoding='base58'),
+                           rchain.address_base58(net, kind, h)))
+    for name, fn, exp in direct:
+        for arg in (h, _tc(h.hex(), tc)):
+            col.probe('address.hash_direct')
+            c = dict(case, route=name)
+            try:
+                got = fn(arg)
+            except Exception as e:
+                col.violation(None, '%s on %s raised %r' % (name, net, e), c, repr(e)[:300], exp)
+                continue
+            if got != exp:
+                col.violation(None, '%s on %s is not the standard encoding of this hash' % (name, net), c, got, exp)
 
 
 # ------------------------------------------------------------------ sequences: state kept between key objects
@@ -483,6 +587,7 @@ def gen_sequence(rnd, net):
         rel = 'mixed-views'
     views = [list(v) for v in views]
     for v in views:
+        v.append(gen_textcase(rnd) if v[2] in (TEXT_PRIV if v[1] == 'private' else TEXT_PUB) else 'lower')
         dd = None if d is None else (d if v[0] == 1 else N - d)
         if v[2] == 'hex01' and dd is not None and ('%064x' % dd)[:2] in ('02', '03'):
             v[2] = 'hex'
@@ -498,7 +603,9 @@ def run_sequence(case, col, rnd):
         col.note_inconclusive('sequence generator produced an inconsistent base point')
         return
     items = []
-    for sign, kind, fmt, compressed in case['views']:
+    for view in case['views']:
+        sign, kind, fmt, compressed = view[:4]
+        tc = view[4] if len(view) > 4 else 'lower'
         pt = pt0 if sign == 1 else (pt0[0], P - pt0[1])
         d = None if (d0 is None or kind != 'private') else (d0 if sign == 1 else N - d0)
         if kind == 'private' and d is None:
@@ -507,12 +614,12 @@ def run_sequence(case, col, rnd):
         pubc, pubu = ec.encode_pub(pt, True), ec.encode_pub(pt, False)
         if kind == 'private':
             compressed = _fmt_compressed(fmt, bool(compressed))
-            mk = (lambda fmt=fmt, d=d, c=compressed: _construct_private(fmt, d, net, c))
+            mk = (lambda fmt=fmt, d=d, c=compressed, tc=tc: _construct_private(fmt, d, net, c, tc))
         else:
             compressed = fmt not in ('hex-uncompressed', 'bytes-uncompressed')
-            mk = (lambda fmt=fmt, pubc=pubc, pubu=pubu, pt=pt: _construct_public(fmt, pubc, pubu, pt, net)[0])
+            mk = (lambda fmt=fmt, pubc=pubc, pubu=pubu, pt=pt, tc=tc: _construct_public(fmt, pubc, pubu, pt, net, tc)[0])
         items.append({'mk': mk, 'd': d, 'pt': pt, 'compressed': compressed, 'label': '%s%s/%s' % ('+' if sign == 1 else '-', kind, fmt),
-                      'case': dict(case, item=[sign, kind, fmt, compressed], fmt=fmt)})
+                      'case': dict(case, item=[sign, kind, fmt, compressed, tc], fmt=fmt, textcase=tc)})
     sched = case.get('schedule', 'eager')
     sig = tuple(sorted({(it['label'], it['compressed']) for it in items[:2]}))
     col.case('sequence/%s/%s' % (case.get('relation'), sched), nontrivial=('sequence', case.get('relation'), sched, sig, len(items)), sample=case)
@@ -739,6 +846,8 @@ def run_case(case, col, rnd=None):
         run_bad_public(case, col)
     elif k == 'sequence':
         run_sequence(case, col, rnd)
+    elif k == 'hash':
+        run_hash(case, col, rnd)
 
 
 def _selfcheck(col):
@@ -772,7 +881,8 @@ def run_shard(spec, col):
     if not _selfcheck(col):
         return
     for p in ('key.private', 'key.public', 'keyfacts', 'address.key', 'address.obj', 'address.script', 'address.p2tr', 'address.hdkey',
-              'address.nonstandard_pair', 'neg.scalar', 'neg.public', 'key.public()', 'seq.construct', 'seq.observe'):
+              'address.nonstandard_pair', 'neg.scalar', 'neg.public', 'key.public()', 'seq.construct', 'seq.observe', 'address.hash',
+              'address.hash_direct', 'key.text_not_lowercase'):
         col.require(p)
     # the library must know exactly the golden networks (a missing/extra network is a change the table must follow)
     from bitcoinlib.networks import NETWORK_DEFINITIONS
@@ -814,18 +924,37 @@ def run_shard(spec, col):
                       'views': [[a, 'public', 'hex', True], [b, 'public', 'bytes', True]], 'schedule': SCHEDULES[(sh + j) % len(SCHEDULES)],
                       'network': next_net()}, col, rnd)
 
+    # every textual public format in every letter case on shard-specific consecutive scalars (both kinds of last hex digit occur)
+    for j in range(6):
+        pt = ec.mul_g(1000 + sh * 6 + j)
+        for fmt in TEXT_PUB:
+            run_public({'kind': 'public', 'x': '%x' % pt[0], 'y': '%x' % pt[1], 'src': 'dG', 'fmt': fmt, 'network': next_net(),
+                        'textcase': TEXTCASES[1 + (j + sh) % 3]}, col, rnd)
+    # header-like hashes, one of every (first byte class, length) per shard
+    for n_h in (20, 32):
+        for first in (0x00, 0x51 + sh):
+            hh = bytes([first, n_h - 2]) + rnd.randbytes(n_h - 2)
+            run_hash({'kind': 'hash', 'h': hh.hex(), 'cls': 'header-like-%02x' % (0 if first == 0 else 0x51), 'network': next_net(),
+                      'textcase': TEXTCASES[sh % 4]}, col, rnd)
+
     for i in range(n):
         r = rnd.random()
         net = next_net()
-        if rnd.random() < 0.12:
+        r2 = rnd.random()
+        if r2 < 0.12:
             run_sequence(gen_sequence(rnd, net), col, rnd)
+            continue
+        if r2 < 0.22:
+            hh, hcls = gen_hash(rnd)
+            run_hash({'kind': 'hash', 'h': hh.hex(), 'cls': hcls, 'network': net, 'textcase': gen_textcase(rnd)}, col, rnd)
             continue
         if r < 0.45:
             d = gen_scalar(rnd)
             fmt = rnd.choice(PRIV_FORMATS)
             if fmt == 'hex01' and ('%064x' % d)[:2] in ('02', '03'):
                 fmt = 'hex'
-            run_private({'kind': 'private', 'd': '%x' % d, 'fmt': fmt, 'network': net, 'compressed': rnd.random() < 0.7}, col, rnd)
+            run_private({'kind': 'private', 'd': '%x' % d, 'fmt': fmt, 'network': net, 'compressed': rnd.random() < 0.7,
+                         'textcase': gen_textcase(rnd)}, col, rnd)
         elif r < 0.7:
             # public import; half of them from arbitrary x (decompression), half from d*G
             if rnd.random() < 0.5:
@@ -838,7 +967,8 @@ def run_shard(spec, col):
             else:
                 pt = ec.mul_g(gen_scalar(rnd))
                 src = 'dG'
-            run_public({'kind': 'public', 'x': '%x' % pt[0], 'y': '%x' % pt[1], 'src': src, 'fmt': rnd.choice(PUB_FORMATS), 'network': net}, col, rnd)
+            run_public({'kind': 'public', 'x': '%x' % pt[0], 'y': '%x' % pt[1], 'src': src, 'fmt': rnd.choice(PUB_FORMATS), 'network': net,
+                        'textcase': gen_textcase(rnd)}, col, rnd)
         elif r < 0.82:
             d, cl = gen_bad_scalar(rnd)
             run_bad_scalar({'kind': 'bad-scalar', 'd': '%x' % d, 'cls': cl, 'fmt': rnd.choice(PRIV_FORMATS), 'network': net,
